@@ -139,10 +139,12 @@ const (
 	tplArith
 	tplPortionVar
 	tplMetaVar
+	tplAssetVar
+	tplSaveVar
 	numTpl
 )
 
-var tplNames = []string{"lit", "var", "meta", "ordered", "max", "odb", "odu", "all", "bal", "world", "split", "setacctmeta", "two", "raw", "orderedvars", "arith", "portionvar", "metavar"}
+var tplNames = []string{"lit", "var", "meta", "ordered", "max", "odb", "odu", "all", "bal", "world", "split", "setacctmeta", "two", "raw", "orderedvars", "arith", "portionvar", "metavar", "assetvar", "savevar"}
 
 var assetNames = []string{"USD", "EUR/2"}
 
@@ -216,6 +218,14 @@ func scriptFor(op *Op) (plain string, vars map[string]string) {
 	case tplMetaVar:
 		fmt.Fprintf(&sb, "vars {\n\tstring $v\n\taccount $acc\n\tmonetary $m\n}\nsend $m (\n\tsource = @world\n\tdestination = $acc\n)\nset_tx_meta(\"note\", $v)\nset_account_meta($acc, \"note\", $v)\n")
 		vars["v"], vars["acc"], vars["m"] = "v"+cp, d, a+" "+amt
+	case tplAssetVar:
+		// the asset of a monetary literal (and of a send-all) comes from a variable
+		fmt.Fprintf(&sb, "vars {\n\tasset $ass\n}\nsend [$ass %s] (\n\tsource = @world\n\tdestination = @%s\n)\n", cp, d)
+		vars["ass"] = a
+	case tplSaveVar:
+		// save ... from: the kept amount travels in a variable; @world pays the rest
+		fmt.Fprintf(&sb, "vars {\n\tmonetary $keep\n\taccount $acc\n}\nsave $keep from $acc\nsend [%s 3] (\n\tsource = {\n\t\t$acc\n\t\t@world\n\t}\n\tdestination = @%s\n)\n", a, d)
+		vars["keep"], vars["acc"] = a+" "+amt, s
 	case tplRaw:
 		sb.WriteString(op.Raw)
 	default:
